@@ -116,6 +116,11 @@ def build(case):
     return cube
 
 
+def _num(x, k):
+    """a plain number in one of the types a caller may hold it in: float, numpy float64 scalar, 0-d array"""
+    return [float, np.float64, np.array][k % 3](x)
+
+
 def run(case):
     import astropy.units as u
     cube = build(case)
@@ -176,9 +181,9 @@ def run(case):
             if i in none_w_pt[pi]:
                 comps_.append(None)
             elif form == "values_float_units" and not as_objects:
-                comps_.append(float(v))
+                comps_.append(_num(float(v), pi + i))
             elif form == "values_float_km" and not as_objects:
-                comps_.append(float(v) / 1000.0 if units[i] == "m" else float(v))
+                comps_.append(_num(float(v) / 1000.0 if units[i] == "m" else float(v), pi + i))
             elif form == "values_quantity_km" and not as_objects and units[i] == "m":
                 comps_.append((float(v) / 1000.0) * u.km)
             elif form == "values_quantity_mixed" and not as_objects and units[i] == "m" and (pi + i) % 2 == 1:
